@@ -105,6 +105,10 @@ mod types;
 pub mod traits;
 pub use crate::types::Ph;
 
+/// Verification hooks: thin wrappers over crate-private functions (feature `verif-hooks` only).
+#[cfg(feature = "verif-hooks")]
+pub mod verif_hooks;
+
 // Applies across all security parameter sets
 const Q: i32 = 8_380_417; // 2^23 - 2^13 + 1 = 0x7FE001; page 15 table 1 first row
 const ZETA: i32 = 1753; // See section 2.5 of FIPS 204; page 15 table 1 second row
